@@ -1,7 +1,217 @@
-use serde_json::Value;
+//! Adapters for HTML sanitizing (C14, C15).
 
-use crate::OpResult;
+use std::{
+    collections::HashSet,
+    sync::{Mutex, OnceLock},
+};
 
-pub fn dispatch(_op: &str, _cmd: &Value) -> Option<OpResult> {
-    None
+use ruma_html::{
+    sanitize_html, ElementAttributesReplacement, ElementAttributesSchemes, Html,
+    HtmlSanitizerMode, ListBehavior, NameReplacement, NodeData, NodeRef, PropertiesNames,
+    RemoveReplyFallback, SanitizerConfig,
+};
+use serde_json::{json, Value};
+
+use crate::{s, OpResult};
+
+/// The builder API takes `&'static str`: intern (leak once per distinct string).
+fn intern(x: &str) -> &'static str {
+    static SET: OnceLock<Mutex<HashSet<&'static str>>> = OnceLock::new();
+    let mut set = SET.get_or_init(|| Mutex::new(HashSet::new())).lock().unwrap();
+    if let Some(v) = set.get(x) {
+        return v;
+    }
+    let leaked: &'static str = Box::leak(x.to_owned().into_boxed_str());
+    set.insert(leaked);
+    leaked
+}
+
+fn strs(v: &Value) -> Vec<&'static str> {
+    v.as_array().map(|a| a.iter().filter_map(Value::as_str).map(intern).collect()).unwrap_or_default()
+}
+
+fn behavior(v: &Value) -> ListBehavior {
+    if v.get("behavior").and_then(Value::as_str) == Some("override") {
+        ListBehavior::Override
+    } else {
+        ListBehavior::Add
+    }
+}
+
+/// `{el: [names]}` -> leaked PropertiesNames
+fn props(v: &Value) -> Vec<PropertiesNames<'static>> {
+    let mut out = vec![];
+    if let Some(m) = v.as_object() {
+        for (el, names) in m {
+            let names: &'static [&'static str] = Box::leak(strs(names).into_boxed_slice());
+            out.push(PropertiesNames { parent: intern(el), properties: names });
+        }
+    }
+    out
+}
+
+/// `{el: {attr: [schemes]}}`
+fn schemes(v: &Value) -> Vec<ElementAttributesSchemes<'static>> {
+    let mut out = vec![];
+    if let Some(m) = v.as_object() {
+        for (el, attrs) in m {
+            let p: &'static [PropertiesNames<'static>] = Box::leak(props(attrs).into_boxed_slice());
+            out.push(ElementAttributesSchemes { element: intern(el), attr_schemes: p });
+        }
+    }
+    out
+}
+
+fn config_of(c: &Value) -> Result<SanitizerConfig, String> {
+    let mut cfg = match c.get("mode").and_then(Value::as_str) {
+        Some("strict") => SanitizerConfig::strict(),
+        Some("compat") => SanitizerConfig::compat(),
+        None => SanitizerConfig::new(),
+        Some(x) => return Err(format!("harness: mode {x}")),
+    };
+    if crate::b(c, "remove_reply_fallback") {
+        cfg = cfg.remove_reply_fallback();
+    }
+    if let Some(v) = c.get("allow_elements") {
+        cfg = cfg.allow_elements(strs(&v["list"]), behavior(v));
+    }
+    if let Some(v) = c.get("remove_elements") {
+        cfg = cfg.remove_elements(strs(v));
+    }
+    if let Some(v) = c.get("ignore_elements") {
+        cfg = cfg.ignore_elements(strs(v));
+    }
+    if let Some(v) = c.get("replace_elements") {
+        let reps: Vec<NameReplacement> = v["list"]
+            .as_object()
+            .map(|m| {
+                m.iter()
+                    .map(|(k, n)| NameReplacement { old: intern(k), new: intern(n.as_str().unwrap_or("span")) })
+                    .collect()
+            })
+            .unwrap_or_default();
+        cfg = cfg.replace_elements(reps, behavior(v));
+    }
+    if let Some(v) = c.get("replace_attrs") {
+        let mut reps = vec![];
+        if let Some(m) = v["list"].as_object() {
+            for (el, r) in m {
+                let rs: Vec<NameReplacement> = r
+                    .as_object()
+                    .map(|m| {
+                        m.iter()
+                            .map(|(k, n)| NameReplacement { old: intern(k), new: intern(n.as_str().unwrap_or("x")) })
+                            .collect()
+                    })
+                    .unwrap_or_default();
+                let rs: &'static [NameReplacement] = Box::leak(rs.into_boxed_slice());
+                reps.push(ElementAttributesReplacement { element: intern(el), replacements: rs });
+            }
+        }
+        cfg = cfg.replace_attributes(reps, behavior(v));
+    }
+    if let Some(v) = c.get("allow_attrs") {
+        cfg = cfg.allow_attributes(props(&v["list"]), behavior(v));
+    }
+    if let Some(v) = c.get("remove_attrs") {
+        cfg = cfg.remove_attributes(props(v));
+    }
+    if let Some(v) = c.get("allow_schemes") {
+        cfg = cfg.allow_schemes(schemes(&v["list"]), behavior(v));
+    }
+    if let Some(v) = c.get("deny_schemes") {
+        cfg = cfg.deny_schemes(schemes(v));
+    }
+    if let Some(v) = c.get("allow_classes") {
+        cfg = cfg.allow_classes(props(&v["list"]), behavior(v));
+    }
+    if let Some(v) = c.get("remove_classes") {
+        cfg = cfg.remove_classes(props(v));
+    }
+    if let Some(d) = c.get("max_depth").and_then(Value::as_u64) {
+        cfg = cfg.max_depth(d as u32);
+    }
+    Ok(cfg)
+}
+
+/// Flat pre-order dump: [depth, "e", name, [[attr, value]..]] | [depth, "t", text] | [depth, "o"]
+/// (iterative: no recursion in the adapter itself)
+fn dump(html: &Html) -> Value {
+    let mut out = vec![];
+    let mut stack: Vec<(NodeRef, usize)> = vec![];
+    let top: Vec<NodeRef> = html.children().collect();
+    for c in top.into_iter().rev() {
+        stack.push((c, 0));
+    }
+    while let Some((node, depth)) = stack.pop() {
+        match node.data() {
+            NodeData::Element(e) => {
+                let attrs: Vec<Value> = e
+                    .attrs
+                    .borrow()
+                    .iter()
+                    .map(|a| json!([a.name.local.as_ref(), a.value.as_ref()]))
+                    .collect();
+                let prefix = e.name.prefix.as_ref().map(|p| p.as_ref().to_owned());
+                out.push(json!([depth, "e", e.name.local.as_ref(), attrs, e.name.ns.as_ref(), prefix]));
+            }
+            NodeData::Text(t) => out.push(json!([depth, "t", t.borrow().as_ref()])),
+            _ => out.push(json!([depth, "o"])),
+        }
+        let kids: Vec<NodeRef> = node.children().collect();
+        for c in kids.into_iter().rev() {
+            stack.push((c, depth + 1));
+        }
+    }
+    Value::Array(out)
+}
+
+pub fn dispatch(op: &str, cmd: &Value) -> Option<OpResult> {
+    Some(match op {
+        "sanitize" => (|| {
+            let input = s(cmd, "html")?;
+            let cfg = config_of(cmd.get("config").ok_or("harness: config")?)?;
+            let want_trees = !crate::b(cmd, "no_trees");
+            let html = Html::parse(input);
+            let in_tree = if want_trees { dump(&html) } else { Value::Null };
+            let in_reser = html.to_string();
+            html.sanitize_with(&cfg);
+            let san_tree = if want_trees { dump(&html) } else { Value::Null };
+            let out = html.to_string();
+            // the same document object sanitized a second time
+            html.sanitize_with(&cfg);
+            let same_object_twice = html.to_string();
+            // output parsed again
+            let re = Html::parse(&out);
+            let out_tree = if want_trees { dump(&re) } else { Value::Null };
+            let reser = re.to_string();
+            re.sanitize_with(&cfg);
+            let twice = re.to_string();
+            Ok(json!({
+                "out": out, "in_tree": in_tree, "in_reser": in_reser, "san_tree": san_tree,
+                "out_tree": out_tree, "reser": reser, "twice": twice,
+                "same_object_twice": same_object_twice,
+            }))
+        })(),
+        "sanitize_html" => (|| {
+            let input = s(cmd, "html")?;
+            let mode = match s(cmd, "mode")? {
+                "strict" => HtmlSanitizerMode::Strict,
+                _ => HtmlSanitizerMode::Compat,
+            };
+            let rf = if crate::b(cmd, "remove_reply_fallback") {
+                RemoveReplyFallback::Yes
+            } else {
+                RemoveReplyFallback::No
+            };
+            let out = sanitize_html(input, mode, rf);
+            let fallback_only = ruma_html::remove_html_reply_fallback(input);
+            Ok(json!({"out": out, "remove_html_reply_fallback": fallback_only}))
+        })(),
+        "html_parse" => (|| {
+            let html = Html::parse(s(cmd, "html")?);
+            Ok(json!({"tree": dump(&html), "reser": html.to_string()}))
+        })(),
+        _ => return None,
+    })
 }
